@@ -55,6 +55,15 @@ def e2e_suite(profiles, oracles, n=None):
              env_quick=dict(env, VERIF_E2E_N=n or 10), env_thorough=dict(env, VERIF_E2E_N=(n or 10) * 10))
     return d
 
+CACHE_SUITE = dict(name="cache", pkg="./cache/", test="TestVerifCache", min_lines=200,
+                   oracles=["cache_entry_is_not_the_version_added", "cache_entry_lost_store_data", "confirmation_carried_over_to_another_version",
+                            "restart_finds_other_than_persisted"], diffs=["cache"],
+                   env_quick={"VERIF_N": 400}, env_thorough={"VERIF_N": 20000})
+CACHE_RULE = (" cache: seeded operation sequences of 4..17 operations on the REAL cache.JSON in a temp directory (5 names; Add of a new version, of the version "
+              "added last, or of that version with ONE field changed - size +1, mtime +1 ns, hash, the store's link data -; Done, Reset, Remove, Persist, and "
+              "restarts = a new NewJSON on the same directory); the whole cache is dumped after every operation and compared with the model (Model/Cache.v); "
+              "non-trivial = the sequence contains a Done or a restart; distinct = distinct sequences")
+
 HTTP_RULE = ("http: a real serverApp behind the real Serve mux on 127.0.0.1: systematically every route (data, data-recovery, validate, partials, static GET, "
              "static DELETE) x 13 source values (valid, unknown, empty, '..', '.', '../..', 'good/..', other case, metacharacters, NUL) x allow-list on/off x "
              "key list on/off x key {none, right, wrong}; every name of a 19-element traversal list (parent segments, absolute, a/../.., repeated and mixed "
@@ -278,7 +287,8 @@ PROPS = {
     "C02": dict(
         coq="Properties/C02.v",
         suites=[e2e_suite("plain,faults,reuse,mutate,crash,swap,pollnone", ["deleted_without_validated_copy", "source_gone_receiver_lacks_it", "released_without_positive_answer"], n=9),
-                dict(STAGE_SUITE, oracles=["positive_status_without_copy", "positive_status_for_another_version"], diffs=["status"])],
+                dict(STAGE_SUITE, oracles=["positive_status_without_copy", "positive_status_for_another_version"], diffs=["status"]),
+                dict(CACHE_SUITE, oracles=["confirmation_carried_over_to_another_version"])],
         rule=E2E_RULE + " | " + STAGE_RULE,
         level_text=("Proof (decision level) + trace oracles: the sender releases a file only on a positive poll answer, in the poll loop and at restart; the "
                     "receiver answers positively only for validated / finalized / logged entries and negatively for failed, received, unknown ones. That every "
@@ -291,8 +301,9 @@ PROPS = {
     "C07": dict(
         coq="Properties/C07.v",
         suites=[e2e_suite("crash,crashfail,crashgone", ["resent_bytes_receiver_reported_held", "not_delivered_after_sender_restart", "deleted_without_validated_copy", "source_gone_receiver_lacks_it", "released_without_positive_answer"], n=14),
-                dict(name="chunk", pkg="./client/", test="TestVerifChunk", min_lines=1000, oracles=["chunks_not_tiling_missing"], diffs=["left", "left-kind", "chunks"])],
-        rule=E2E_RULE,
+                dict(name="chunk", pkg="./client/", test="TestVerifChunk", min_lines=1000, oracles=["chunks_not_tiling_missing"], diffs=["left", "left-kind", "chunks"]),
+                CACHE_SUITE],
+        rule=E2E_RULE + CACHE_RULE,
         level_text=("Proof (plan level) + crash enumeration: the restart plan re-sends ranges only for an unconfirmed, unchanged, partly received file and "
                     "exactly the complement of what the receiver lists (missing_complement); an unconfirmed file is never skipped or marked done; nothing is "
                     "finished at restart without a positive answer. Sender crashes are injected at random interface-event indexes (all wrappers and cache "
@@ -306,8 +317,9 @@ PROPS = {
         coq="Properties/C17.v",
         suites=[dict(name="scan", pkg="./client/", test="TestVerifScan", min_lines=300, timeout_quick=600,
                      env_quick={"VERIF_N": 700}, env_thorough={"VERIF_N": 20000}),
-                e2e_suite("eligible,reuse,mutate,plain,swap", ["ineligible_file_sent_or_deleted", "delivered_mixture_of_versions", "not_delivered_within_bound", "source_gone_receiver_lacks_it"])],
-        rule=("scan: the REAL store.Local.Scan + Broker.includeScannedFile + Broker.scan (hashing, cache.JSON) on generated trees (15 names: nested, hidden "
+                e2e_suite("eligible,reuse,mutate,plain,swap", ["ineligible_file_sent_or_deleted", "delivered_mixture_of_versions", "not_delivered_within_bound", "source_gone_receiver_lacks_it"]),
+                CACHE_SUITE],
+        rule=CACHE_RULE + (" scan: the REAL store.Local.Scan + Broker.includeScannedFile + Broker.scan (hashing, cache.JSON) on generated trees (15 names: nested, hidden "
               "files and directories, ignored, lock, included / not included, a name with a space, a symbolic link) x minimum age {0, 10 s, 60 s} x hidden on/off x "
               "include list on/off; histories of 4..18 operations: create anew (rename over the name), rewrite in place, append, touch forwards and BACKWARDS, "
               "replace by a same-size file with an older / newer / identical mtime, remove, disable marker on/off, scan; ages stay 3 s clear of the minimum-age "
